@@ -71,9 +71,9 @@ class RecordsDatabase(Sized):
         if direction is not None:
             if key not in self._map:
                 self._map[key] = {}
-            self._map[key][direction] = []  # type: ignore
+            self._map[key].setdefault(direction, [])  # type: ignore
         else:
-            self._map[key] = []
+            self._map.setdefault(key, [])
 
     def add(self, value: Record, direction: Optional[Direction] = None) -> None:
         """
